@@ -7,6 +7,7 @@ import (
 	"strings"
 
 	"golang.org/x/tools/go/packages"
+	"golang.org/x/tools/go/ssa"
 )
 
 // ruleRangeEnd (R-END): every source range the module builds for a syntax-tree node has both ends.
@@ -310,4 +311,113 @@ func countCallsBefore(fd *ast.FuncDecl, call *ast.CallExpr) int {
 		return true
 	})
 	return res
+}
+
+// ruleFreshDecode (W-DECODE): a JSON message is decoded into a value that is fresh for that message.
+// encoding/json leaves a field alone when its key is absent and re-uses slice elements within capacity without
+// zeroing them: decoding a notification into a value that outlives the message (a variable captured by the
+// handler closure, a field, a package variable, a local that was pre-filled from such a place) lets an optional
+// member keep what an earlier message put there - a `range` pointer left by a ranged change turns the next
+// whole-document replacement into a splice at the old range.
+func ruleFreshDecode(c *Ctx) {
+	n := 0
+	for _, f := range c.P.ModuleFuncs() {
+		for _, b := range f.Blocks {
+			for _, ins := range b.Instrs {
+				call, ok := ins.(ssa.CallInstruction)
+				if !ok {
+					continue
+				}
+				cal := call.Common().StaticCallee()
+				if cal == nil || cal.Pkg == nil || cal.Pkg.Pkg.Path() != "encoding/json" {
+					continue
+				}
+				var target ssa.Value
+				switch {
+				case cal.Name() == "Unmarshal" && len(call.Common().Args) == 2:
+					target = call.Common().Args[1]
+				case cal.Name() == "Decode" && len(call.Common().Args) == 2:
+					target = call.Common().Args[1]
+				default:
+					continue
+				}
+				n++
+				v := stripConv(target)
+				al, isAlloc := v.(*ssa.Alloc)
+				bad := ""
+				switch {
+				case !isAlloc:
+					bad = "the target is not a variable of this call (" + v.Name() + ": a captured variable, a field or a package variable)"
+				case inCycle(al.Block()) && false:
+				default:
+					// pre-filled from a longer-lived place?
+					var visit func(addr ssa.Value, d int)
+					visit = func(addr ssa.Value, d int) {
+						if d > 3 || addr.Referrers() == nil {
+							return
+						}
+						for _, r := range *addr.Referrers() {
+							switch x := r.(type) {
+							case *ssa.Store:
+								if x.Addr != addr {
+									continue
+								}
+								for w := range backSlice(x.Val) {
+									switch w.(type) {
+									case *ssa.FreeVar, *ssa.Global:
+										bad = "the target is pre-filled from a variable that outlives the message (" + w.Name() + ")"
+									}
+								}
+							case *ssa.FieldAddr:
+								visit(x, d+1)
+							}
+						}
+					}
+					visit(al, 0)
+				}
+				c.check(bad == "", "W-DECODE", funcName(f), "JSON is decoded into a fresh value", ins.Pos(),
+					"the decode target is a variable created for this message",
+					"a JSON message is decoded into a value that is not fresh for that message: "+bad+". encoding/json keeps members whose key is absent and re-uses slice elements without zeroing them, so an optional member (the range of a content change) silently keeps the value of an earlier message")
+			}
+		}
+	}
+	c.census("W-DECODE", "JSON decode sites in module code", n, 1)
+}
+
+// ruleWorkspaceReinit (C12-REINIT): the workspace is rebuilt from disk (Workspace.Initialize) only during the
+// server's initialisation.  Afterwards the resolved tree carries the unsaved text of open documents (UpdateFile);
+// a rebuild from disk on a later path - a configuration change, a watcher - silently goes back to the saved
+// files while the documents stay as the editor has them.
+func ruleWorkspaceReinit(c *Ctx) {
+	ci := buildConc(c)
+	n := 0
+	// the initialisation phase of the protocol: `initialize` and `initialized` (the client sends nothing else in
+	// between); everything reachable from another handler or from a goroutine the server starts is "later"
+	var later []*ssa.Function
+	for _, h := range ci.handlers {
+		if h.Name() != "Initialize" && h.Name() != "Initialized" {
+			later = append(later, h)
+		}
+	}
+	later = append(later, ci.goRoots...)
+	laterReach := Reach(ci.g, later, false)
+	for _, f := range ci.funcs {
+		for _, b := range f.Blocks {
+			for _, ins := range b.Instrs {
+				call, ok := ins.(ssa.CallInstruction)
+				if !ok {
+					continue
+				}
+				cal := call.Common().StaticCallee()
+				if cal == nil || cal.Name() != "Initialize" || cal.Signature.Recv() == nil || !typeHasSuffix(cal.Signature.Recv().Type(), "workspace.Workspace") {
+					continue
+				}
+				n++
+				c.check(ci.initFns[f] || !laterReach[f], "C12-REINIT", funcName(f), "the workspace is rebuilt from disk during initialisation only", ins.Pos(),
+					"the caller belongs to the initialisation phase",
+					"Workspace.Initialize (a rebuild of the tree from the files on disk) is called outside the server's initialisation: unsaved text that didChange had put into the workspace tree is replaced by the saved files, while references, rename and completion keep taking their target from the open document")
+			}
+		}
+	}
+	c.census("C12-REINIT", "calls of Workspace.Initialize", n, 1)
 }
